@@ -10,6 +10,15 @@
 // inductive step over all write sizes, carrier behaviours and buffer configurations.
 use super::*;
 
+/// Every mutable static of this file carries a unique tag next to its value.  Kani 0.68 names a constant allocation
+/// after the first global with the same bytes, so an all-zero `static mut X: usize = 0` can become the storage of an
+/// unrelated all-zero CONSTANT of the standard library (observed: alloc::raw_vec::ZERO_CAP read from a harness
+/// counter, depending on the crate hash and therefore on the path of the checkout).  A unique tag makes the bytes of
+/// each static unique, so no constant can be merged with it.
+#[repr(C)]
+struct Tagged<T> { tag: u64, v: T }
+
+
 /// Noise specification: a transport message is at most 65535 bytes, 16 of which are the AEAD tag
 const SPEC_MAX_MSG: usize = 65535;
 const SPEC_MAX_PLAINTEXT: usize = SPEC_MAX_MSG - 16;
@@ -17,11 +26,11 @@ const ELEN_UNIT: usize = MAX_NOISE_MSG_LEN + 2;
 
 // ---- carrier contract --------------------------------------------------------------------------------------
 pub(super) struct VerifIo { polls_left: u8 }
-static mut IO_WRITES: u8 = 0;
-static mut IO_LAST_PTR: usize = 0;
-static mut IO_LAST_LEN: usize = 0;
-static mut IO_TAKEN: usize = 0;
-static mut IO_FLUSHED: bool = false;
+static mut IO_WRITES: Tagged<u8> = Tagged { tag: 0x534b7c233f702e3, v: 0 };
+static mut IO_LAST_PTR: Tagged<usize> = Tagged { tag: 0x831cc2a86237807, v: 0 };
+static mut IO_LAST_LEN: Tagged<usize> = Tagged { tag: 0x2886368c77580dd, v: 0 };
+static mut IO_TAKEN: Tagged<usize> = Tagged { tag: 0x56ee058721bde73, v: 0 };
+static mut IO_FLUSHED: Tagged<bool> = Tagged { tag: 0x8fd9894615b50db, v: false };
 
 impl AsyncRead for VerifIo {
     fn poll_read(self: Pin<&mut Self>, _cx: &mut Context<'_>, _buf: &mut [u8]) -> Poll<io::Result<usize>> { Poll::Pending }
@@ -31,25 +40,25 @@ impl AsyncWrite for VerifIo {
         // parks on its second poll: one drain iteration + re-entry of the drain loop
         if self.polls_left == 0 { return Poll::Pending; }
         self.polls_left -= 1;
-        unsafe { IO_WRITES += 1; IO_LAST_PTR = buf.as_ptr() as usize; IO_LAST_LEN = buf.len(); }
+        unsafe { IO_WRITES.v += 1; IO_LAST_PTR.v = buf.as_ptr() as usize; IO_LAST_LEN.v = buf.len(); }
         match kani::any::<u8>() % 3 {
             0 => Poll::Pending,
             1 => Poll::Ready(Err(io::ErrorKind::BrokenPipe.into())),
-            _ => { let n: usize = kani::any(); kani::assume(n <= buf.len()); unsafe { IO_TAKEN = n; } Poll::Ready(Ok(n)) }
+            _ => { let n: usize = kani::any(); kani::assume(n <= buf.len()); unsafe { IO_TAKEN.v = n; } Poll::Ready(Ok(n)) }
         }
     }
     fn poll_flush(self: Pin<&mut Self>, _cx: &mut Context<'_>) -> Poll<io::Result<()>> {
-        match kani::any::<u8>() % 3 { 0 => Poll::Pending, 1 => Poll::Ready(Err(io::ErrorKind::BrokenPipe.into())), _ => { unsafe { IO_FLUSHED = true; } Poll::Ready(Ok(())) } }
+        match kani::any::<u8>() % 3 { 0 => Poll::Pending, 1 => Poll::Ready(Err(io::ErrorKind::BrokenPipe.into())), _ => { unsafe { IO_FLUSHED.v = true; } Poll::Ready(Ok(())) } }
     }
     fn poll_close(self: Pin<&mut Self>, _cx: &mut Context<'_>) -> Poll<io::Result<()>> { Poll::Ready(Ok(())) }
 }
 
 // ---- cipher contract ------------------------------------------------------------------------------------------
-static mut CH_N: usize = 0;                 // chunks handed to the cipher
-static mut CH_MSG_PTR: [usize; 4] = [0; 4];
-static mut CH_MSG_LEN: [usize; 4] = [0; 4];
-static mut CH_OUT_PTR: [usize; 4] = [0; 4];
-static mut CH_RET: [usize; 4] = [0; 4];
+static mut CH_N: Tagged<usize> = Tagged { tag: 0xc50f18ca4659149, v: 0 };                 // chunks handed to the cipher
+static mut CH_MSG_PTR: Tagged<[usize; 4]> = Tagged { tag: 0x2d4c0b8deea0421, v: [0; 4] };
+static mut CH_MSG_LEN: Tagged<[usize; 4]> = Tagged { tag: 0xaa9dabdfb2ae763, v: [0; 4] };
+static mut CH_OUT_PTR: Tagged<[usize; 4]> = Tagged { tag: 0xab2570ef8809927, v: [0; 4] };
+static mut CH_RET: Tagged<[usize; 4]> = Tagged { tag: 0x6da75d06f38a059, v: [0; 4] };
 
 fn cipher_write(_this: &mut NoiseContext, message: &[u8], out: &mut [u8]) -> Result<usize, snow::Error> {
     // preconditions of snow's TransportState::write_message: a caller that passes an oversize chunk or a short
@@ -57,13 +66,13 @@ fn cipher_write(_this: &mut NoiseContext, message: &[u8], out: &mut [u8]) -> Res
     assert!(message.len() + 16 <= SPEC_MAX_MSG, "chunk larger than a Noise message can carry");
     assert!(out.len() >= message.len() + 16, "output window too small for ciphertext + tag");
     unsafe {
-        assert!(CH_N < 4);
-        CH_MSG_PTR[CH_N] = message.as_ptr() as usize;
-        CH_MSG_LEN[CH_N] = message.len();
-        CH_OUT_PTR[CH_N] = out.as_ptr() as usize;
+        assert!(CH_N.v < 4);
+        CH_MSG_PTR.v[CH_N.v] = message.as_ptr() as usize;
+        CH_MSG_LEN.v[CH_N.v] = message.len();
+        CH_OUT_PTR.v[CH_N.v] = out.as_ptr() as usize;
         if kani::any() { return Err(snow::Error::Input); }
-        CH_RET[CH_N] = message.len() + 16;
-        CH_N += 1;
+        CH_RET.v[CH_N.v] = message.len() + 16;
+        CH_N.v += 1;
     }
     Ok(message.len() + 16)
 }
@@ -113,13 +122,13 @@ fn c02_poll_write_step() {
 
     unsafe {
         // Step 1: the carrier is only ever offered the not-yet-written part of the encrypted buffer
-        if IO_WRITES > 0 {
+        if IO_WRITES.v > 0 {
             assert!(was_writing);
-            assert!(IO_LAST_PTR == eb + off0 && IO_LAST_LEN == enc0 - off0);
+            assert!(IO_LAST_PTR.v == eb + off0 && IO_LAST_LEN.v == enc0 - off0);
         }
         // offset after the drain attempt
-        let (off1, enc1, drained) = if !was_writing { (0, 0, true) } else if IO_WRITES > 0 && IO_TAKEN > 0 {
-            if off0 + IO_TAKEN == enc0 { (0, 0, true) } else { (off0 + IO_TAKEN, enc0, false) }
+        let (off1, enc1, drained) = if !was_writing { (0, 0, true) } else if IO_WRITES.v > 0 && IO_TAKEN.v > 0 {
+            if off0 + IO_TAKEN.v == enc0 { (0, 0, true) } else { (off0 + IO_TAKEN.v, enc0, false) }
         } else { (off0, enc0, false) };
         match &r {
             Poll::Ready(Ok(n)) => {
@@ -130,19 +139,19 @@ fn c02_poll_write_step() {
                 let mut pos = if drained { 0 } else { enc1 };
                 let mut j = 0;
                 while j < 4 {
-                    if j < CH_N {
+                    if j < CH_N.v {
                         // chunk j is data[total .. total + l], split at multiples of MAX_FRAME_LEN
-                        assert!(CH_MSG_PTR[j] == dp + total);
-                        let l = CH_MSG_LEN[j];
+                        assert!(CH_MSG_PTR.v[j] == dp + total);
+                        let l = CH_MSG_LEN.v[j];
                         assert!(l == if len - total >= MAX_FRAME_LEN { MAX_FRAME_LEN } else { len - total });
                         // its ciphertext window starts 2 bytes after the previous frame and lies inside the buffer
-                        assert!(CH_OUT_PTR[j] == eb + pos + 2);
-                        assert!(pos + 2 + CH_RET[j] <= elen);
+                        assert!(CH_OUT_PTR.v[j] == eb + pos + 2);
+                        assert!(pos + 2 + CH_RET.v[j] <= elen);
                         // big-endian length prefix directly in front of it
-                        assert!(sock.encrypt_buffer[pos] == (CH_RET[j] >> 8) as u8);
-                        assert!(sock.encrypt_buffer[pos + 1] == (CH_RET[j] & 0xff) as u8);
-                        assert!(CH_RET[j] <= 65535);
-                        pos += 2 + CH_RET[j];
+                        assert!(sock.encrypt_buffer[pos] == (CH_RET.v[j] >> 8) as u8);
+                        assert!(sock.encrypt_buffer[pos + 1] == (CH_RET.v[j] & 0xff) as u8);
+                        assert!(CH_RET.v[j] <= 65535);
+                        pos += 2 + CH_RET.v[j];
                         total += l;
                     }
                     j += 1;
@@ -167,7 +176,7 @@ fn c02_poll_write_step() {
             }
             Poll::Pending => {
                 // nothing was accepted => nothing was handed to the cipher
-                assert!(CH_N == 0);
+                assert!(CH_N.v == 0);
                 assert!(len > 0);
             }
             Poll::Ready(Err(_)) => {}
@@ -196,23 +205,23 @@ fn c02_poll_flush_step() {
     kani::cover!(matches!(r, Poll::Ready(Ok(()))) && was_writing);
     kani::cover!(matches!(r, Poll::Pending) && was_writing);
     unsafe {
-        if IO_WRITES > 0 { assert!(was_writing && IO_LAST_PTR == eb + off0 && IO_LAST_LEN == enc0 - off0); }
+        if IO_WRITES.v > 0 { assert!(was_writing && IO_LAST_PTR.v == eb + off0 && IO_LAST_LEN.v == enc0 - off0); }
         match &r {
             Poll::Ready(Ok(())) => {
                 // flush complete => everything encrypted was taken by the carrier and the carrier confirmed its flush
                 assert!(matches!(sock.write_state, WriteState::Idle));
-                assert!(IO_FLUSHED);
-                if was_writing { assert!(IO_TAKEN == enc0 - off0); }
+                assert!(IO_FLUSHED.v);
+                if was_writing { assert!(IO_TAKEN.v == enc0 - off0); }
             }
             Poll::Pending => {
                 // offset only grows by what the carrier took
                 match sock.write_state {
                     WriteState::Writing { offset, encrypted_len } => {
                         assert!(was_writing && encrypted_len == enc0);
-                        assert!(offset == off0 || offset == off0 + IO_TAKEN);
+                        assert!(offset == off0 || offset == off0 + IO_TAKEN.v);
                         assert!(offset < encrypted_len);
                     }
-                    WriteState::Idle => assert!(!was_writing || off0 + IO_TAKEN == enc0),
+                    WriteState::Idle => assert!(!was_writing || off0 + IO_TAKEN.v == enc0),
                 }
             }
             Poll::Ready(Err(_)) => {}
